@@ -26,6 +26,7 @@ func genTenantHistory(r *rand.Rand, quick bool) *plan.Plan {
 	p := &plan.Plan{Knobs: k, Params: map[string]any{}}
 	inc := plan.Incarnation{Boot: "full", SchedSeed: r.Uint64()>>11 | 1}
 	orgs := tenantOrgs[:2+r.IntN(2)]
+	p.Knobs.Orgs = append([]int64(nil), orgs...) // the node knows its organisations (start-up recovery runs per organisation)
 	counter := 0
 	queries := func() {
 		for _, org := range orgs {
@@ -67,7 +68,13 @@ func genTenantHistory(r *rand.Rand, quick bool) *plan.Plan {
 			inc.Ops = append(inc.Ops, plan.Op{Kind: "delete_index", Org: org, Index: []string{"app", "app2", "ap", "web", "app-prod"}[r.IntN(5)]})
 			queries()
 		default:
-			inc.Ops = append(inc.Ops, plan.Op{Kind: "shutdown"})
+			// graceful restart, or the process is killed after a flush (open segments are then adopted from their
+			// running metadata at the next start)
+			if r.IntN(2) == 0 {
+				inc.Ops = append(inc.Ops, plan.Op{Kind: "shutdown"})
+			} else {
+				inc.Ops = append(inc.Ops, plan.Op{Kind: "flush"})
+			}
 			p.Incs = append(p.Incs, inc)
 			inc = plan.Incarnation{Boot: "full", SchedSeed: r.Uint64()>>11 | 1}
 			queries()
@@ -128,6 +135,7 @@ func tenantOracle(prop string, res *RunResult) []Violation {
 	t := &tenantModel{events: map[int64]map[string][]*Event{}, flushed: map[int64]map[string]int{}, alias: map[int64]map[string]map[string]bool{}, byVID: map[string]*Event{}}
 	crossDeleted := map[string]bool{}
 	deletedOnce := map[string]bool{}
+	redeleted := map[string]bool{}
 	markFlushed := func() {
 		for org, m := range t.events {
 			for ix, evs := range m {
@@ -148,7 +156,26 @@ func tenantOracle(prop string, res *RunResult) []Violation {
 			vs = append(vs, Violation{Sig: prop + ":node-" + ab + ":" + site, Msg: trimTo(ir.Stderr, 1500)})
 		}
 		if ii > 0 {
-			markFlushed()
+			// a graceful shutdown flushes everything; a killed process loses what was not flushed
+			graceful := false
+			prev := res.Plan.Incs[ii-1].Ops
+			if n := len(prev); n > 0 && prev[n-1].Kind == "shutdown" && res.Incs[ii-1].Get(fmt.Sprint(n-1)) != nil {
+				graceful = true
+			}
+			if graceful {
+				markFlushed()
+			} else {
+				for org, m := range t.events {
+					for ix, evs := range m {
+						if n := t.flushed[org][ix]; n < len(evs) {
+							for _, ev := range evs[n:] {
+								delete(t.byVID, ev.VID)
+							}
+							m[ix] = evs[:n]
+						}
+					}
+				}
+			}
 		}
 		for oi := range inc.Ops {
 			op := &inc.Ops[oi]
@@ -203,6 +230,9 @@ func tenantOracle(prop string, res *RunResult) []Violation {
 					}
 				}
 				for _, ix := range t.expand(op.Org, op.Index) {
+					if deletedOnce[fmt.Sprintf("%d/%s", op.Org, ix)] {
+						redeleted[fmt.Sprintf("%d/%s", op.Org, ix)] = true // deleted, re-created by ingestion, deleted again
+					}
 					deletedOnce[fmt.Sprintf("%d/%s", op.Org, ix)] = true
 					delete(t.events[op.Org], ix)
 					delete(t.flushed[op.Org], ix)
@@ -247,6 +277,9 @@ func tenantOracle(prop string, res *RunResult) []Violation {
 							cls := "aggregation-count-wrong"
 							if perIdx[b.G[0]] == 0 {
 								cls = "aggregation-leaks-other-index-or-tenant"
+								if redeleted[fmt.Sprintf("%d/%s", op.Org, b.G[0])] {
+									cls = "aggregation-shows-deleted-index:index-recreated-after-its-deletion"
+								}
 							}
 							vs = append(vs, Violation{Sig: prop + ":" + cls, Msg: fmt.Sprintf("%s: count by idx: %s=%v, expected %d", desc, b.G[0], got, perIdx[b.G[0]])})
 						}
@@ -267,6 +300,9 @@ func tenantOracle(prop string, res *RunResult) []Violation {
 								ixv := ev.Flat["idx"].S
 								if _, alive := t.events[op.Org][ixv]; !alive {
 									cls = "returns-deleted-index-data"
+									if redeleted[fmt.Sprintf("%d/%s", op.Org, ixv)] {
+										cls += ":index-recreated-after-its-deletion"
+									}
 								} else {
 									cls = "leaks-other-index"
 								}
@@ -307,7 +343,7 @@ func init() {
 	register(&Check{
 		ID:    "C13",
 		Level: "exploration",
-		Rule: "each case is one seeded history over 2-3 organisations and 5 index names that are prefixes of each other (app, app2, ap, app-prod, web), with ingest, flush/rotation, alias add/remove (the shared alias name 'al'), index deletion and graceful restarts; after every step match-all searches and `stats count by idx` are issued for every organisation over exact names, wildcards, '*', comma lists, the alias and a non-existent name, and compared with the tenant/index model. distinct = distinct operation shapes; non-trivial = at least two organisations hold an index of the same name or a deletion/alias step occurred",
+		Rule: "each case is one seeded history over 2-3 organisations and 5 index names that are prefixes of each other (app, app2, ap, app-prod, web), with ingest, flush/rotation, alias add/remove (the shared alias name 'al'), index deletion and restarts (graceful, or killed after a flush); after every step match-all searches and `stats count by idx` are issued for every organisation over exact names, wildcards, '*', comma lists, the alias and a non-existent name, and compared with the tenant/index model. distinct = distinct operation shapes; non-trivial = at least two organisations hold an index of the same name or a deletion/alias step occurred",
 		Run: func(c *Ctx) {
 			n := 100
 			if !c.Quick() {
